@@ -5,6 +5,7 @@ package client
 import (
 	"time"
 
+	"github.com/nats-io/nats.go"
 	"github.com/simpleiot/simpleiot/data"
 )
 
@@ -35,4 +36,33 @@ func VerifRuleFeed(c Client, nodeID string, pts data.Points) {
 // VerifRuleConfig returns the rule client's current configuration (call after Run has returned).
 func VerifRuleConfig(c Client) Rule {
 	return c.(*RuleClient).config
+}
+
+// VerifSyncOnce runs one catch-up pass of the sync client (SyncClient.syncNode) for the node
+// parent/id between the local instance (nc, and ncLocal: a second, no-echo connection to it) and
+// the upstream reached through ncRemote, without the client's Run loop (no real-time forwarding
+// from local to upstream). It returns what syncNode returns, after dropping the subscriptions the
+// pass created on ncRemote.
+func VerifSyncOnce(nc, ncLocal, ncRemote *nats.Conn, syncID, parent, id string) error {
+	root, err := GetRootNode(nc)
+	if err != nil {
+		return err
+	}
+	up := NewSyncClient(nc, Sync{ID: syncID, Description: "verif"}).(*SyncClient)
+	up.ncLocal = ncLocal
+	up.ncRemote = ncRemote
+	up.rootLocal = root
+	err = up.syncNode(parent, id)
+	for key, sub := range up.subRemoteNodePoints {
+		_ = sub.Unsubscribe()
+		delete(up.subRemoteNodePoints, key)
+	}
+	for key, sub := range up.subRemoteEdgePoints {
+		_ = sub.Unsubscribe()
+		delete(up.subRemoteEdgePoints, key)
+	}
+	if up.subRemoteUp != nil {
+		_ = up.subRemoteUp.Unsubscribe()
+	}
+	return err
 }
